@@ -134,7 +134,8 @@ pub fn canned_ga(tag: u8) -> get_assertion::Response {
     user.display_name = Some(ctap_types::String::from("User"));
     user.icon = Some(ctap_types::String::from("icon"));
     r.user = Some(user);
-    r.number_of_credentials = Some(tag as u32);
+    // the first assertion announces two credentials (a GetAssertion + GetNextAssertion sequence)
+    r.number_of_credentials = Some(if tag == 0x22 { 2 } else { tag as u32 });
     r.user_selected = Some(true);
     r.large_blob_key = Some(ctap_types::ByteArray::new([tag; 32]));
     r.ep_att = Some(true);
@@ -359,7 +360,31 @@ pub fn wide_alphabet() -> Alphabet {
             }
         }
     }
+    {
+        // allow lists of three and four entries with a foreign credential type at every subset of positions
+        use crate::refcbor::V;
+        let plan = Plan::new(&request_schema(command_of(0x02).unwrap()).unwrap(), Side::Request);
+        let leaf = plan.leaf_index("/allowList");
+        for n in [3usize, 4] {
+            for subset in 0..(1u32 << n) {
+                let items: Vec<V> = (0..n).map(|i| V::M(vec![(V::t("id"), V::B(vec![0x60 + i as u8; 16])), (V::t("type"), V::t(if subset >> i & 1 == 1 { "x" } else { "public-key" }))])).collect();
+                let mut msg = vec![0x02u8];
+                msg.extend(encode(&plan.build_with(plan.full_mask(), &[], &[(leaf, V::A(items))])));
+                if let Ok(r) = ctap2::Request::deserialize(leak(msg)) {
+                    c2.push((format!("0x02:allow list of {} with foreign types at {:#b}", n, subset), r));
+                }
+            }
+        }
+    }
     let mut c1 = Vec::new();
+    // registration requests whose two members are each one repeated byte: every pair of byte values
+    for a in 0..=255u8 {
+        for b in 0..=255u8 {
+            let ch: &'static [u8; 32] = Box::leak(Box::new([b; 32]));
+            let app: &'static [u8; 32] = Box::leak(Box::new([a; 32]));
+            c1.push((format!("register app {:02x} challenge {:02x}", a, b), ctap1::Request::Register(ctap1::register::Request { challenge: ch, app_id: app })));
+        }
+    }
     for (k, cb) in [ctap1::ControlByte::CheckOnly, ctap1::ControlByte::EnforceUserPresenceAndSign, ctap1::ControlByte::DontEnforceUserPresenceAndSign].into_iter().enumerate() {
         for khl in [0usize, 1, 16, 64, 128, 190, 255] {
             for fill in [0x00u8, 0xff, 0x5a] {
@@ -607,7 +632,7 @@ pub fn run(ctx: &'static Ctx) {
         ctx.note(format!("wide alphabet: {} CTAP2 requests (single and pair deviations from the full anchors that decode), {} CTAP1 requests", wide.ctap2.len(), wide.ctap1.len()));
         let d = Dispatch { al: wide, max: 1, steps: vec![], wide: true };
         let (dr, wr) = (&d, &ws);
-        sweep(ctx, "single dispatches over the wide request alphabet", nw, "every single and every pair of value deviations from the full anchor of every parameter-bearing command, and 66 CTAP1 shapes, x both entry points x success / one error", move |idx, l| {
+        sweep(ctx, "single dispatches over the wide request alphabet", nw, "every single and every pair of value deviations from the full anchor of every parameter-bearing command, 66 authenticate / register shapes and every (application, challenge) pair of repeated byte values, x both entry points x success / one error", move |idx, l| {
             let h = vec![wr[idx as usize]];
             l.nontrivial += 1;
             l.bump("wide dispatch");
@@ -619,6 +644,24 @@ pub fn run(ctx: &'static Ctx) {
     }
     let al2 = al.clone();
     explore(ctx, Dispatch { al: al2, max, steps: steps_used, wide: false }, Some(1 + k + k * k), "histories of two dispatches on one authenticator: nothing is carried over");
+    {
+        // three (thorough: four) dispatches in a row over one payload per command and one vendor
+        // code, success and one error: e.g. GetAssertion announcing two credentials followed by
+        // GetNextAssertion twice
+        let keep_vendor = al.ctap2.iter().position(|(l, _)| l == "vendor 0x42").unwrap() as u32;
+        let sq: Vec<Step> = steps
+            .iter()
+            .cloned()
+            .filter(|(r, _, b)| {
+                let lab = if (*r as usize) < al.ctap2.len() { &al.ctap2[*r as usize].0 } else { &al.ctap1[*r as usize - al.ctap2.len()].0 };
+                *b <= 1 && (!lab.starts_with("vendor") || *r == keep_vendor) && !lab.ends_with(":full") && !lab.ends_with('\'') && !lab.starts_with("0x0c:")
+            })
+            .collect();
+        let kq = sq.len() as u64;
+        let depth = if ctx.thorough() { 4 } else { 3 };
+        let expect: u64 = (0..=depth as u32).map(|d| kq.pow(d)).sum();
+        explore(ctx, Dispatch { al: al.clone(), max: depth, steps: sq, wide: false }, Some(expect), "histories of three (thorough: four) dispatches over one payload per command, one vendor code, success and one error");
+    }
     if ctx.thorough() {
         // three dispatches in a row: one vendor code, first payload of each command, success and two errors
         let keep_vendor = al.ctap2.iter().position(|(l, _)| l == "vendor 0x42").unwrap() as u32;
